@@ -248,7 +248,7 @@ def run_shard(shard):
         import flox
 
         arr = np.arange(16.0).reshape(2, 2, 4) - 5
-        by3 = np.array([[[0, 1, 0, 1], [2, 2, 0, 1]], [[3, 3, 3, 3], [4, 4, 0, 0]]], dtype=float)
+        by3 = np.array([[[0, 1, 0, 1], [2, 2, 0, 1]], [[3, 3, 3, 3], [-1, -1, 0, 0]]], dtype=float)  # -1 is an ordinary label here
         for by, name in ((by3, "3d"), (by3[0], "2d")):
             nd = by.ndim
             axes = [None] + [tuple(c) for r in range(1, nd + 1) for c in itertools.combinations(range(3 - nd, 3), r)]
